@@ -148,6 +148,7 @@ class DyadCarrier(object):
         assert len(subscript) == self.ndim, "Invalid number of slices, must be 2"
         if self.shape[0] < 0 and self.shape[1] < 0:
             return DyadCarrier()
+        subscript = tuple(np.asarray(s) if isinstance(s, list) else s for s in subscript)  # Lists index like arrays
 
         usample = np.zeros(self.shape[0])[subscript[0]]
         vsample = np.zeros(self.shape[1])[subscript[1]]
@@ -163,9 +164,9 @@ class DyadCarrier(object):
         vsub = [vi[subscript[1]] for vi in self.v]
 
         if is_uni_slice or is_np_slice:
-            res = 0
+            res = np.zeros(np.shape(usample * vsample), dtype=self.dtype)  # Also correct without any dyads
             for (ui, vi) in zip(usub, vsub):
-                res += ui*vi
+                res = res + ui*vi
 
             return res
         else:
